@@ -59,9 +59,14 @@ def make_cases(rng, tier, budget):
             g = sorted(set(g))
             if len(g) < 2:
                 g = [t0, t0 + 1.0]
+        c["sim"]["grid_kind"] = r.choice(["list", "tuple", "array"])
+        edge = r.random()
+        if edge < 0.04:
+            g, c["sim"]["grid_kind"] = [g[-1]], "array"          # a one-element ARRAY is a one-point grid (a one-element list is a horizon)
+        elif edge < 0.09 and len(g) >= 3:
+            g = g[1:]                                             # grid starting after t0: first row is not x0 (outside row_zero)
         c["sim"]["grid"] = g
         c["sim"]["T"] = g[-1]
-        c["sim"]["grid_kind"] = r.choice(["list", "tuple", "array"])
         c["max_steps"] = budget.get("max_steps", SC.MAX_STEPS)
         cases.append(c)
     return cases
@@ -157,9 +162,13 @@ def run_case(case):
         if rows.shape[0] != len(grid):
             viol.append({"what": "not one row per requested time", "signature": sig("rows-count"), "detail": "%d rows for %d times" % (rows.shape[0], len(grid))})
             continue
-        if not np.array_equal(rows[0], x0):
+        if grid[0] > sim["t0"]:
+            tags.append("grid_starts_after_t0")
+        elif not np.array_equal(rows[0], x0):
             viol.append({"what": "first row is not the initial state", "signature": sig("row-zero"), "detail": "row0=%s x0=%s" % (rows[0].tolist(), x0.tolist())})
-        on_grid = any(tt == g for tt in T[1:] for g in grid[1:-1])
+        # numpy's bins are [g_k, g_k+1) (last one closed): an event exactly on a grid point other than the last is counted in
+        # the following interval.  Excluded by hypothesis (measure zero in exact mode; with a fixed tau it does happen)
+        on_grid = any(tt == g for tt in T[1:] for g in grid[:-1])
         if on_grid: tags.append("event_on_grid_point")
         # per-transition firings in (g_k, g_k+1]
         ref = np.zeros((len(grid) - 1, nE))
